@@ -176,7 +176,7 @@ void harness(void) {
 	VASSERT(verif_yaml_open_events == 0, "every yaml event obtained is deleted exactly once");
 	VASSERT(verif_all_free(), "all locks released (a rejected configuration must not leave a lock behind)");
 	/* the caller's clean-up after success or failure (bidib_stop -> bidib_state_free) */
-#ifndef NO_STATE_FREE
+#if !defined(NO_STATE_FREE) && !defined(NO_FINAL_FREE)
 	bidib_state_free();
 #endif
 	VWITNESS();
